@@ -126,7 +126,7 @@ func (c *compiler) compile(o interface{}) error {
 		p := o.(Meta).Parent()
 		if !x.IsConfigSet() {
 			x.setConfig(c.inheritConfig(p))
-		} else if x.Config() && !p.(HasConfig).Config() {
+		} else if x.Config() && !c.inheritConfig(p) {
 			return fmt.Errorf("%s - config cannot be true when parent config is false", SchemaPath(o.(Meta)))
 		}
 	}
